@@ -13,10 +13,13 @@
 //	        Shard.CreateCursorIterator, and per shard the series listing
 //	        (Index.MeasurementIterator x MeasurementSeriesIDIterator + series file), plus
 //	        Store.MeasurementNames and Store.TagValues(t0) over all shards.
-//	guard   a delete parked at the verif hook point "tsm1.delete:after-tombstones" (it holds its
-//	        epoch guard) + two concurrent Store.WriteToShard calls: each must complete while the
-//	        delete is parked iff none of its points lies in the delete's time range (the guard of
-//	        DeleteSeriesWithPredicate has no names/expr), and must complete after the release.
+//	guard   a delete parked at the K-th occurrence of the verif hook point
+//	        "tsm1.delete:after-tombstones" / "tsm1.delete:after-cache" (once per shard and selected
+//	        measurement; shards are processed one at a time, so the delete holds its epoch guard
+//	        on exactly one shard) + a non-conflicting Store.WriteToShard (no point inside the
+//	        delete's time range: must complete while parked) + one conflicting write per shard
+//	        (exactly the one to the shard being processed must stay blocked; all complete after
+//	        the release; nobody may deadlock).
 //
 // One case = one history with every observation; the Coq judge coq/Model/C17.v replays it.
 package main
@@ -108,15 +111,18 @@ type jstep struct {
 	UseAPI bool     `json:"use_api,omitempty"` // build pred + measurement expr from the text
 	Text   string   `json:"text,omitempty"`
 	MName  *B       `json:"mname,omitempty"` // measurement name the store extracts from the measurement expr
-	// guard step
-	WA []jpoint `json:"wa,omitempty"`
-	WB []jpoint `json:"wb,omitempty"`
+	// guard step: park the delete at the K-th occurrence (0-based) of hook point Hook
+	WA   []jpoint   `json:"wa,omitempty"`  // non-conflicting writer, to shard Shard
+	WBs  [][]jpoint `json:"wbs,omitempty"` // conflicting writers, one per shard (index = shard)
+	Hook string     `json:"hook,omitempty"`
+	K    int        `json:"k,omitempty"`
 	// observations
 	Err       string `json:"impl_err,omitempty"`
 	Obs       *jobs  `json:"impl_obs,omitempty"`
 	Parked    bool   `json:"impl_parked,omitempty"`
 	AEarly    bool   `json:"impl_a_done_while_parked,omitempty"`
-	BEarly    bool   `json:"impl_b_done_while_parked,omitempty"`
+	NBlocked  int    `json:"impl_conflicting_writers_blocked_while_parked"`
+	BDone     []bool `json:"impl_conflicting_writer_done_while_parked,omitempty"`
 	AfterBoth bool   `json:"impl_both_done_after_release,omitempty"`
 }
 type jcase struct {
@@ -468,20 +474,28 @@ func buildPred(st *jstep) (influxdb.Predicate, influxql.Expr, error) {
 	return p, nil, err
 }
 
-// ---- hook plumbing: park one delete at "tsm1.delete:after-tombstones" ----
+// ---- hook plumbing: park one delete at the K-th occurrence of a hook point ----
+// (the point fires once per Engine.deleteSeriesRange call, i.e. once per shard and selected
+// measurement; shards are processed one at a time)
 var (
-	hmu     sync.Mutex
-	armed   bool
-	reached chan struct{}
-	resume  chan struct{}
+	hmu      sync.Mutex
+	armed    bool
+	hookName string
+	hookK    int
+	hookSeen int
+	reached  chan struct{}
+	resume   chan struct{}
 )
 
 func hook(name string) {
-	if name != "tsm1.delete:after-tombstones" {
+	hmu.Lock()
+	if !armed || name != hookName {
+		hmu.Unlock()
 		return
 	}
-	hmu.Lock()
-	if !armed {
+	n := hookSeen
+	hookSeen++
+	if n != hookK {
 		hmu.Unlock()
 		return
 	}
@@ -492,7 +506,7 @@ func hook(name string) {
 	<-c
 }
 
-const deadline = 20 * time.Second
+const deadline = 40 * time.Second
 
 func runCase(w *vh.W, c *jcase) {
 	idx := w.Len()
@@ -569,9 +583,12 @@ func runCase(w *vh.W, c *jcase) {
 				continue
 			}
 			wa, _ := e.points(st.WA)
-			wb, _ := e.points(st.WB)
+			if st.Hook == "" {
+				st.Hook = "tsm1.delete:after-tombstones"
+			}
 			hmu.Lock()
-			armed, reached, resume = true, make(chan struct{}), make(chan struct{})
+			armed, hookName, hookK, hookSeen = true, st.Hook, st.K, 0
+			reached, resume = make(chan struct{}), make(chan struct{})
 			r, rs := reached, resume
 			hmu.Unlock()
 			delDone := make(chan error, 1)
@@ -581,37 +598,72 @@ func runCase(w *vh.W, c *jcase) {
 			case <-r:
 				st.Parked = true
 			case err := <-delDone:
-				delDone <- err // the delete had nothing to do on any shard: never parked
+				delDone <- err // fewer than K+1 occurrences of the point: never parked
 			case <-time.After(deadline):
 				fail("guard: delete neither parked nor finished within the deadline")
 			}
-			aDone, bDone := make(chan error, 1), make(chan error, 1)
+			where := fmt.Sprintf("delete [%d,%d] parked at occurrence %d of %s", st.Lo, st.Hi, st.K, st.Hook)
+			// writer A (no point inside the delete's time range) and one conflicting writer per shard
+			aDone := make(chan error, 1)
 			go func() { aDone <- e.store.WriteToShard(ctx, uint64(st.Shard+1), wa) }()
-			go func() { bDone <- e.store.WriteToShard(ctx, uint64(st.Shard+1), wb) }()
-			st.AEarly, st.BEarly = false, false
+			bDone := make([]chan error, len(st.WBs))
+			for i := range st.WBs {
+				pts, _ := e.points(st.WBs[i])
+				ch := make(chan error, 1)
+				bDone[i] = ch
+				go func(i int) { ch <- e.store.WriteToShard(ctx, uint64(i+1), pts) }(i)
+			}
+			done := func(ch chan error, d time.Duration) bool {
+				select {
+				case err := <-ch:
+					ch <- err
+					return true
+				case <-time.After(d):
+					return false
+				}
+			}
+			st.AEarly, st.NBlocked = false, 0
+			st.BDone = make([]bool, len(st.WBs))
 			if st.Parked {
-				// expected-unblocked writers get the full deadline, expected-blocked ones a grace period
-				expA, expB := !conflicts(st.WA, st.Lo, st.Hi), !conflicts(st.WB, st.Lo, st.Hi)
-				waitFor := func(ch chan error, exp bool) bool {
-					d := 300 * time.Millisecond
-					if exp {
-						d = deadline
-					}
-					select {
-					case err := <-ch:
-						ch <- err
-						return true
-					case <-time.After(d):
-						return false
-					}
+				st.AEarly = done(aDone, deadline)
+				if !st.AEarly {
+					fail("guard: a write with no point inside the delete's time range did not complete within the deadline while the " + where)
 				}
-				st.AEarly = waitFor(aDone, expA)
-				st.BEarly = waitFor(bDone, expB)
-				if expA && !st.AEarly {
-					fail("guard: a write that does not conflict with the parked delete did not complete within the deadline")
-				}
-				if expB && !st.BEarly {
-					fail("guard: a write that does not conflict with the parked delete did not complete within the deadline")
+				// The delete holds its guard on exactly ONE shard (earlier shards: Done, later shards: not
+				// reached, limiter of 1).  All conflicting writers but one must therefore complete; wait
+				// for them (generously), then give the last one a grace period: it must stay blocked.
+				if len(bDone) > 0 {
+					t0 := time.Now()
+					for time.Since(t0) < deadline {
+						n := 0
+						for i, ch := range bDone {
+							if !st.BDone[i] && done(ch, 0) {
+								st.BDone[i] = true
+							}
+							if st.BDone[i] {
+								n++
+							}
+						}
+						if n >= len(bDone)-1 {
+							break
+						}
+						time.Sleep(5 * time.Millisecond)
+					}
+					time.Sleep(300 * time.Millisecond)
+					for i, ch := range bDone {
+						if !st.BDone[i] && done(ch, 0) {
+							st.BDone[i] = true
+						}
+						if !st.BDone[i] {
+							st.NBlocked++
+						}
+					}
+					switch {
+					case st.NBlocked == 0:
+						fail(fmt.Sprintf("guard: every conflicting write (one per shard, each with a point inside the delete's time range) completed while the %s: the write to the shard the delete is working on was not blocked by the delete's guard (done=%v)", where, st.BDone))
+					case st.NBlocked > 1:
+						fail(fmt.Sprintf("guard: %d conflicting writes are still blocked while the %s, although the delete holds its guard on one shard only (done=%v)", st.NBlocked, where, st.BDone))
+					}
 				}
 			}
 			hmu.Lock()
@@ -619,7 +671,7 @@ func runCase(w *vh.W, c *jcase) {
 			hmu.Unlock()
 			close(rs)
 			st.AfterBoth = true
-			for _, ch := range []chan error{delDone, aDone, bDone} {
+			for _, ch := range append([]chan error{delDone, aDone}, bDone...) {
 				select {
 				case err := <-ch:
 					if err != nil {
@@ -627,7 +679,7 @@ func runCase(w *vh.W, c *jcase) {
 					}
 				case <-time.After(deadline):
 					st.AfterBoth = false
-					fail("guard: deadlock: an operation did not complete after the delete was released")
+					fail("guard: deadlock: an operation did not complete after the delete was released (" + where + ")")
 				}
 			}
 			st.Obs, err = e.observe()
@@ -640,8 +692,12 @@ func runCase(w *vh.W, c *jcase) {
 			if st.MName != nil {
 				mn = vh.Some(vh.Bytes(*st.MName))
 			}
+			wbt := make([]string, len(st.WBs))
+			for i := range st.WBs {
+				wbt[i] = ptsTerm(st.WBs[i])
+			}
 			terms = append(terms, fmt.Sprintf("CGuard %d%%nat %s %s %s %s %s %s %s %s %s %s", st.Shard, vh.Z(st.Lo), vh.Z(st.Hi), coqNode(st.Pred), mn,
-				ptsTerm(st.WA), ptsTerm(st.WB), vh.Bool(st.Parked), vh.Bool(st.AEarly), vh.Bool(st.BEarly), obsTerm(st.Obs)))
+				ptsTerm(st.WA), vh.List(wbt), vh.Bool(st.Parked), vh.Bool(st.AEarly), vh.N(uint64(st.NBlocked)), obsTerm(st.Obs)))
 		}
 	}
 	dterms := make([]string, len(c.Defs))
@@ -795,8 +851,11 @@ func corpus() []jcase {
 	all := int64(math.MaxInt64)
 	min := int64(math.MinInt64)
 	w := func(sh int, ps ...jpoint) jstep { return jstep{Op: "write", Shard: sh, Points: ps} }
-	d := func(lo, hi int64, p *jnode, api bool) jstep { return jstep{Op: "delete", Lo: lo, Hi: hi, Pred: p, UseAPI: api} }
+	d := func(lo, hi int64, p *jnode, api bool) jstep {
+		return jstep{Op: "delete", Lo: lo, Hi: hi, Pred: p, UseAPI: api}
+	}
 	defs := []jdef{def("m0", "t0", "a"), def("m0", "t0", "b", "t1", "a"), def("m1", "t0", "a"), def("m1")}
+	gdefs := append(append([]jdef{}, defs...), def("w")) // series 4 = measurement "w": never selected
 	return []jcase{
 		{Kind: "plain", Defs: defs, NShards: 2, Note: "cache only: delete t0=a in [1,3] on both shards, then everything", Steps: []jstep{
 			w(0, jpoint{0, 0, 1, 10}, jpoint{0, 0, 4, 11}, jpoint{1, 0, 2, 12}, jpoint{2, 1, 3, 13}, jpoint{3, 0, 0, 14}),
@@ -835,10 +894,21 @@ func corpus() []jcase {
 				w(0, jpoint{0, 0, 1, 10}, jpoint{1, 0, 1, 11}, jpoint{2, 0, 1, 12}),
 				d(min, all, cmp("eq", "a", "b"), true),
 			}},
-		{Kind: "guard", Defs: defs, NShards: 1, Note: "parked delete [1,3]; writer A outside the range, writer B inside", Steps: []jstep{
+		{Kind: "guard", Defs: gdefs, NShards: 1, Note: "one shard: parked delete [1,3]; writer A outside the range, conflicting writer inside", Steps: []jstep{
 			w(0, jpoint{0, 0, 1, 10}, jpoint{0, 0, 4, 11}, jpoint{2, 0, 2, 12}),
-			{Op: "guard", Shard: 0, Lo: 1, Hi: 3, Pred: cmp("eq", M, "m0"), UseAPI: true,
-				WA: []jpoint{{2, 0, 5, 30}, {0, 0, 0, 31}}, WB: []jpoint{{0, 0, 2, 40}, {3, 1, 9, 41}}},
+			{Op: "guard", Shard: 0, Lo: 1, Hi: 3, Pred: cmp("eq", M, "m0"), UseAPI: true, Hook: "tsm1.delete:after-tombstones", K: 0,
+				WA: []jpoint{{4, 0, 5, 30}, {4, 0, 0, 31}}, WBs: [][]jpoint{{{4, 1, 2, 40}}}},
+		}},
+		{Kind: "guard", Defs: gdefs, NShards: 2, Note: "two shards, parked on the SECOND shard the delete processes (after its cache delete): the conflicting write to that shard must wait", Steps: []jstep{
+			w(0, jpoint{0, 0, 2, 10}), w(1, jpoint{0, 0, 2, 11}),
+			{Op: "guard", Shard: 1, Lo: 1, Hi: 3, Pred: cmp("eq", M, "m0"), UseAPI: true, Hook: "tsm1.delete:after-cache", K: 1,
+				WA: []jpoint{{4, 0, 5, 30}}, WBs: [][]jpoint{{{4, 1, 2, 40}}, {{4, 1, 3, 41}}}},
+		}},
+		{Kind: "guard", Defs: gdefs, NShards: 3, Note: "three shards, parked on the THIRD shard processed (after tombstones)", Steps: []jstep{
+			w(0, jpoint{0, 0, 2, 10}), w(1, jpoint{0, 0, 2, 11}), w(2, jpoint{0, 0, 1, 12}),
+			{Op: "snap", Shard: 1},
+			{Op: "guard", Shard: 0, Lo: 1, Hi: 3, Pred: cmp("eq", M, "m0"), UseAPI: false, Hook: "tsm1.delete:after-tombstones", K: 2,
+				WA: []jpoint{{4, 0, 4, 30}}, WBs: [][]jpoint{{{4, 1, 1, 40}}, {{4, 1, 2, 41}}, {{4, 1, 3, 42}}}},
 		}},
 	}
 }
@@ -858,7 +928,6 @@ func gen(w *vh.W) jcase {
 		c.Kind = "tsm"
 	case x == 3:
 		c.Kind = "guard"
-		c.NShards = 1 // shards are walked concurrently: with one shard the parked delete holds THE guard
 	}
 	// series universe
 	seen := map[string]bool{}
@@ -957,17 +1026,32 @@ func gen(w *vh.W) jcase {
 		}
 	}
 	if c.Kind == "guard" {
-		g := del()
-		g.Op, g.Shard = "guard", r.IntN(c.NShards)
-		if g.Lo > g.Hi {
-			g.Lo, g.Hi = g.Hi, g.Lo
+		// The delete selects the measurement of series 0 (and possibly a second one); every shard
+		// gets a point of series 0 inside the range right before, so the hook point fires at least
+		// once per shard; the conflicting writers use the extra series "w", which is never selected
+		// (so the end state does not depend on the order in which the shards are processed).
+		c.Defs = append(c.Defs, def("w"))
+		wser := len(c.Defs) - 1
+		name0 := string(c.Defs[0].Name)
+		lo := int64(1 + r.IntN(3))
+		hi := lo + int64(r.IntN(int(4-lo)+1))
+		for sh := 0; sh < c.NShards; sh++ {
+			c.Steps = append(c.Steps, jstep{Op: "write", Shard: sh, Points: []jpoint{{S: 0, F: r.IntN(nFields), T: lo, V: int64(r.IntN(90) + 10)}}})
 		}
-		g.WA, g.WB = pts(1+r.IntN(3)), pts(1+r.IntN(3))
-		for i := range g.WA {
-			g.WA[i].F = 0
+		g := jstep{Op: "guard", Shard: r.IntN(c.NShards), Lo: lo, Hi: hi, Pred: cmp("eq", M, name0), UseAPI: r.IntN(2) == 0}
+		if !g.UseAPI && r.IntN(2) == 0 {
+			g.Pred = or(cmp("eq", M, name0), cmp("eq", M, names[r.IntN(len(names))]))
 		}
-		for i := range g.WB {
-			g.WB[i].F = 1
+		g.Hook = []string{"tsm1.delete:after-tombstones", "tsm1.delete:after-cache"}[r.IntN(2)]
+		g.K = r.IntN(c.NShards)
+		out := []int64{0, 5}
+		for i, n := 0, 1+r.IntN(2); i < n; i++ {
+			// also on the never-selected series: a write to a series of the batch that lands before the
+			// delete reaches its shard would change the batch (the reconciliation is racy by design)
+			g.WA = append(g.WA, jpoint{S: wser, F: 0, T: out[i%2], V: int64(r.IntN(90) + 10)})
+		}
+		for sh := 0; sh < c.NShards; sh++ {
+			g.WBs = append(g.WBs, []jpoint{{S: wser, F: 1, T: lo + int64(r.IntN(int(hi-lo)+1)), V: int64(100 + sh)}})
 		}
 		c.Steps = append(c.Steps, g)
 	} else {
@@ -979,7 +1063,7 @@ func gen(w *vh.W) jcase {
 func main() {
 	verifhook.Set(hook)
 	w := vh.New("C17", "From Verif Require Import Base.Prelude Model.C16 Model.C17.", "case", "Model.C17.check")
-	w.Rule = "random histories on a real tsdb.Store with 1-3 shards over 3-6 series (measurements m0, m1, 'm 2' x tags t0,t1 in {absent,a,b,'a b','a,b'}) x 2 integer fields x timestamps 0..5: writes to a shard, cache snapshots of a shard (kind tsm), bucket deletes DeleteSeriesWithPredicate(lo,hi,pred,measurementExpr) with lo/hi from {MinInt64,-1..6,MaxInt64} and predicates of depth<=2 over _measurement/t0/t1 with =,!=,AND (built from the delete-API text like the HTTP handler, incl. the measurement expression) or with OR (protobuf); after every delete every point of every shard is read back and the per-shard series/measurement listing, Store.MeasurementNames and TagValues(t0) are recorded. kind guard: a final delete parked at the hook tsm1.delete:after-tombstones with two concurrent writers. Hand-picked cases first (incl. the finding shapes). Non-trivial: at least one delete and some point still readable after it."
+	w.Rule = "random histories on a real tsdb.Store with 1-3 shards over 3-6 series (measurements m0, m1, 'm 2' x tags t0,t1 in {absent,a,b,'a b','a,b'}) x 2 integer fields x timestamps 0..5: writes to a shard, cache snapshots of a shard (kind tsm), bucket deletes DeleteSeriesWithPredicate(lo,hi,pred,measurementExpr) with lo/hi from {MinInt64,-1..6,MaxInt64} and predicates of depth<=2 over _measurement/t0/t1 with =,!=,AND (built from the delete-API text like the HTTP handler, incl. the measurement expression) or with OR (protobuf); after every delete every point of every shard is read back and the per-shard series/measurement listing, Store.MeasurementNames and TagValues(t0) are recorded. kind guard (1-3 shards): a final delete [lo,hi] parked at the K-th occurrence (K < #shards, so on the K-th shard it processes or earlier) of the hook tsm1.delete:after-tombstones or tsm1.delete:after-cache, then one writer without a point in [lo,hi] (on the never-selected series too; must complete while parked) and one conflicting writer PER SHARD on a never-selected series (all but exactly one must complete while parked: the delete holds its guard on the shard it is working on only; all complete after the release). Hand-picked cases first (incl. the finding shapes). Non-trivial: at least one delete and some point still readable after it."
 	var rc jcase
 	if w.ReplayCase(&rc) {
 		runCase(w, &rc)
